@@ -36,6 +36,46 @@ def roundtrips(tier='quick', seed=0):
                     ok = False
                 if not ok:
                     fails.append({'call': f'{cls.__name__}(bin of {n} bits, {content}) str/repr', 'python': "FAILS = True"})
+    # file-backed objects: whatever the file is called and whichever window of it was opened, the repr evaluates back to an equal object
+    import os
+    import tempfile
+    tmp = tempfile.mkdtemp(prefix='pyvc-c19-')
+    try:
+        for fname in ('plain.bin', "bob's data.bin", 'back\\slash.bin', 'sp ace.bin', 'quo"te.bin', 'new\nline.bin'):
+            path = os.path.join(tmp, fname)
+            raw = bytes(rng.randrange(256) for _ in range(12))
+            try:
+                with open(path, 'wb') as fh:
+                    fh.write(raw)
+            except OSError:
+                continue
+            for off in (None, 0, 8, 16, 13, 40):
+                for ln in (None, 0, 8, 21, 96 - (off or 0)):
+                    if ln is not None and ln > 96 - (off or 0):
+                        continue
+                    for cls in (Bits, BitArray, ConstBitStream, BitStream):
+                        evals += 1
+                        kw = {k: v for k, v in (('offset', off), ('length', ln)) if v is not None}
+                        try:
+                            b = cls(filename=path, **kw)
+                            if cls in (ConstBitStream, BitStream) and len(b):
+                                b.pos = rng.randint(0, len(b))
+                            import warnings
+                            with warnings.catch_warnings():
+                                warnings.simplefilter('ignore')         # (an unescaped backslash in the repr is a SyntaxWarning before it is a wrong path)
+                                e = eval(repr(b), {cls.__name__: cls})
+                            ok = type(e) is cls and e == b and len(e) == len(b) and (not hasattr(b, 'pos') or e.pos == b.pos)
+                            obs = repr(b)[:120]
+                        except Exception as ex:
+                            ok = False
+                            obs = f'{type(ex).__name__}: {ex}'[:120]
+                        if not ok and len(fails) < 8:
+                            fails.append({'call': f'eval(repr({cls.__name__}(filename={fname!r}, {kw})))', 'observed': obs, 'expected': 'an equal object of the same class',
+                                          'python': 'import os, tempfile, bitstring\n' + f"p = os.path.join(tempfile.mkdtemp(), {fname!r})\nopen(p, 'wb').write(bytes.fromhex('{raw.hex()}'))\n"
+                                                    f"b = bitstring.{cls.__name__}(filename=p, **{kw!r})\ntry:\n    FAILS = eval(repr(b), {{'{cls.__name__}': bitstring.{cls.__name__}}}) != b\nexcept Exception:\n    FAILS = True\n"})
+    finally:
+        import shutil
+        shutil.rmtree(tmp, ignore_errors=True)
     # Array.__repr__ evaluates back to an equal Array (unscaled dtypes, finite items)
     for dt, vals in (('uint8', [1, 2, 255]), ('int5', [-16, 0, 15]), ('float32', [1.5, -2.25]), ('hex4', ['a', 'f']), ('bytes2', [b'ab', b'cd']),
                      ('bool', [True, False]), ('<H', [1, 2]), ('uint8', [])):
